@@ -137,10 +137,18 @@ GEN_GROUPS = {   # group -> (groups it builds on, proof files, theorems whose `P
     "mtu": ([], ["GenP_mtu.v"], ["gen_should_fingerprint_eq", "gen_valid_for_mtu_fingerprint_eq", "gen_mtu_from_mss_eq", "gen_mtu_from_mss_reject", "gen_mtu_signatures_match_eq",
                                  "gen_find_mtu_match_eq", "gen_impersonate_mtu_eq", "C08_translated_roundtrip", "C08_translated_untouched"]),
     "options": ([], ["GenOptP.v"], ["gen_parse_options_eq", "gen_parse_options_terminates"]),
+    "layers": (["options", "uptime"], ["GenP_layers.v", "GenLayC.v"],
+               ["gen_from_ipv4_eq", "fields_ip4_unframed", "gen_from_ipv6_eq", "fields_ip6_unframed", "gen_IP_from_packet_v4", "gen_IP_from_packet_v6", "gen_IP_from_packet_none",
+                "gen_TCP_from_packet_eq", "gen_TCP_from_packet_none", "fields_tcp_unframed", "fields_tcp_flags", "gen_sig_from_packet_eq", "gen_extract_eq", "gen_extract_sig_eq",
+                "gen_extract_ok", "C03_translated_fields4", "C03_translated_fields6", "C03_translated_tcp", "C03_translated_packet4", "C03_translated_packet6", "C03_translated_sig_of",
+                "C03_translated_trailer_ignored", "C03_translated_parse_packet", "C03_translated_should_fingerprint"]),
     "http": ([], ["GenP_http.v", "GenHdrP.v"], ["gen_find_http_match_eq", "gen_software_eq", "gen_dishonest_eq", "gen_headers_match_eq", "gen_http_signatures_match_eq", "gen_rec_matches_eq"]),
 }
+GEN_PRELIB = {"layers": ["GenLayLib.v"]}      # hand-written libraries a group's generated file imports (compiled before it, part of its hash)
+GEN_EXTRA_TRANSLATOR = {"layers": "lay2coq.py"}   # groups written by a translator of their own (built on py2coq as a library)
 GEN_MODEL_FILES = ["Model/Prelude.v", "Model/Bits.v", "Model/Sig.v", "Model/Matcher.v", "Model/Select.v", "Model/Uptime.v", "Model/Mtu.v", "Model/Options.v", "Model/Text.v",
-                   "Model/SigParse.v", "Model/DbParse.v", "Model/HttpRead.v", "Model/HttpMatch.v", "Proofs/BitsP.v", "Proofs/OptionsP.v", "Proofs/MtuP.v", "Proofs/UptimeP.v", "Gen/GenLib.v"]
+                   "Model/SigParse.v", "Model/DbParse.v", "Model/HttpRead.v", "Model/HttpMatch.v", "Proofs/BitsP.v", "Proofs/OptionsP.v", "Proofs/MtuP.v", "Proofs/UptimeP.v", "Model/Wire.v", "Spec/C03.v", "Proofs/WireP.v",
+                   "Proofs/ExtractP.v", "Proofs/TrimP.v", "Properties/C03.v", "Gen/GenLib.v"]
 
 
 def gen_tie(groups=None):
@@ -162,8 +170,13 @@ def gen_tie(groups=None):
         rc, out = sh("%s %s %s %s" % (PY, VERIF / "translate" / "py2coq.py", REPO, COQ / "Gen"), 120)
         m = re.search(r"^STATUS (\{.*\})$", out, flags=re.M)
         status = json.loads(m.group(1)) if (rc == 0 and m) else {}
+        for g in order:
+            if g in GEN_EXTRA_TRANSLATOR:
+                rc, out = sh("%s %s %s %s" % (PY, VERIF / "translate" / GEN_EXTRA_TRANSLATOR[g], REPO, COQ / "Gen"), 120)
+                m = re.search(r"^STATUS (\{.*\})$", out, flags=re.M)
+                status.update(json.loads(m.group(1)) if (rc == 0 and m) else {g: "translator failed: " + out.strip()[-300:]})
         model_hash = hashlib.sha1()
-        for f in GEN_MODEL_FILES + ["../translate/py2coq.py"]:
+        for f in GEN_MODEL_FILES + ["../translate/py2coq.py"] + ["../translate/" + t for t in GEN_EXTRA_TRANSLATOR.values()] + ["Gen/" + x for v in GEN_PRELIB.values() for x in v]:
             q = COQ / f
             model_hash.update(q.read_bytes() if q.exists() else b"<missing>")
         done = {}
@@ -192,6 +205,7 @@ def gen_tie(groups=None):
                     for d in deps:      # the groups it builds on must be compiled from THIS translation
                         cmds.append("timeout 600 coqc -Q . PV Gen/Generated_%s.v" % d)
                         cmds += ["timeout 900 coqc -Q . PV Gen/%s" % pf for pf in GEN_GROUPS[d][1]]
+                    cmds += ["timeout 600 coqc -Q . PV Gen/%s" % x for x in GEN_PRELIB.get(g, [])]
                     cmds.append("timeout 600 coqc -Q . PV Gen/Generated_%s.v" % g)
                     rc2, out2 = sh(" && ".join(cmds), 3000, cwd=COQ)
                     closed = 0
@@ -640,6 +654,11 @@ def run_check(prop, tier, replay=None):
         if groups:
             tb.append("translator translate/py2coq.py (fail-closed Python-ast -> Gallina, groups %s): its reading of the accepted Python subset; the generated "
                       "definitions are proved equal to the model on every run (Gen/GenP_<group>.v, GenOptP.v, GenHdrP.v)" % ", ".join(groups))
+            if "layers" in groups:
+                tb.append("translator translate/lay2coq.py (IP._from_ipv4/_from_ipv6/from_packet, TCP.from_packet + __post_init__, Packet.from_packet, TCPPacketSignature.from_packet over records of "
+                          "SCAPY FIELDS): ASSUMED: the dissection functions fields_ip4 / fields_ip6 / fields_tcp of Gen/GenLayLib.v (what Scapy reads from the header bytes; they frame exactly "
+                          "like Model/Wire.v), Scapy's flag-letter tables, the three payload lines of TCP.from_packet (checked literally) as the opaque payload input; "
+                          "TCPOptions.parse is bound to the translated walker of group options; Gen/GenP_layers.v + GenLayC.v re-checked on every run")
         if "imp" in spec:
             tb.append("translator translate/imp2coq.py (impersonate/tcp.py -> random-tape monad): its reading of the subset, the attribute table base packet -> abstract base, "
                       "the literally checked hint prelude / tcp_payload / random_string, constant folding by evaluation with /repo's enum classes; Gen/GenImpP.v + GenImpC.v re-checked on every run")
